@@ -20,6 +20,7 @@ POOLS = {
     "imin": [0, 1, -2 ** 63],          # the smallest int64 (negation wraps)
     "u8": [0, 1, 2],                   # unsigned (negation wraps)
     "td": [np.timedelta64(1, "D"), np.timedelta64("NaT", "D")],
+    "objn": [None, 9, 10, 9.0],        # object vector of mutually comparable values: str() order differs from their own, 9 == 9.0 but str differs
 }
 
 
@@ -37,6 +38,8 @@ def mkcol(kind, values):
         return Vector(values, int)
     if kind == "u8":
         return Vector(values, np.uint8)
+    if kind == "objn":
+        return Vector.fast(list(values), object)
     dt = {"int": int, "float": float, "str": str, "bool": bool, "date": "datetime64[D]", "obj": object}[kind]
     return Vector(values, dt)
 
@@ -671,7 +674,7 @@ def full_join_mixed_keys(run):
 
 # ---- C03: sort ---------------------------------------------------------------------------------------
 SORT_POOLS = {"int": [0, 1, -2 ** 63], "float": [0.5, NAN, -0.5], "str": ["", "a", "b" * 50, "\U0001F600"], "bool": [True, False],
-              "date": POOLS["date"] + [np.datetime64("2021-05-05")], "obj": [None, 1, 2], "fix": ["", "a", "b"]}
+              "date": POOLS["date"] + [np.datetime64("2021-05-05")], "obj": [None, 9, 10], "fix": ["", "a", "b"]}
 
 
 def sort_frames(maxrow):
@@ -815,3 +818,40 @@ def unselect_overlapping(run):
         except Exception as e:
             ok, obs = False, f"raised {type(e).__name__}: {e}"
         run.check([drop], ok, expected=[n for n in names if n not in drop], got=obs, clause="unselect drops exactly the named columns")
+
+
+@driver(P + "left_join[two keys]")
+def join_two_keys(run):
+    """left / inner / semi / anti join on ("k", ("h", "h2")): relational definition on pairs; a missing component never matches"""
+    run.bound = "pairs of frames of <= 2 (thorough 3) rows; k in {0, 1} (int) x h in {'', 'a'} (str; '' is missing); right key columns k, h2"
+    mr = 3 if run.tier == "thorough" else 2
+    vals = [(0, "a"), (1, "a"), (0, "")]
+    gen = ((list(a), list(b)) for n1 in range(mr + 1) for n2 in range(mr + 1) for a in itertools.product(range(3), repeat=n1) for b in itertools.product(range(3), repeat=n2))
+    for ia, ib in run.inputs(gen):
+        a = DataFrame(k=Vector([vals[i][0] for i in ia], int), h=Vector([vals[i][1] for i in ia], str), x=Vector([10 + t for t in range(len(ia))], int))
+        b = DataFrame(k=Vector([vals[i][0] for i in ib], int), h2=Vector([vals[i][1] for i in ib], str), y=Vector([100 + t for t in range(len(ib))], int))
+        sa, sb = snapshot(a), snapshot(b)
+
+        def first(i):
+            if vals[ia[i]][1] == "":
+                return None
+            for j in range(len(ib)):
+                if vals[ib[j]] == vals[ia[i]]:
+                    return j
+            return None
+        m = [first(i) for i in range(len(ia))]
+        try:
+            left = a.left_join(b, "k", ("h", "h2"))
+            ok = left.nrow == a.nrow and list(left.x) == list(a.x) and "h2" not in left.colnames
+            for i in range(a.nrow):
+                ok = ok and ((m[i] is None and is_missing(left.y[i])) or (m[i] is not None and left.y[i] == b.y[m[i]]))
+            inner = a.inner_join(b, "k", ("h", "h2"))
+            keep = [i for i in range(a.nrow) if m[i] is not None]
+            ok = ok and list(inner.x) == [a.x[i] for i in keep] and list(inner.y) == [b.y[m[i]] for i in keep]
+            ok = ok and frame_rows_are(a.semi_join(b, "k", ("h", "h2")), a, keep)
+            ok = ok and frame_rows_are(a.anti_join(b, "k", ("h", "h2")), a, [i for i in range(a.nrow) if m[i] is None])
+            ok = ok and snapshot(a) == sa and snapshot(b) == sb
+            obs = {c: list(left[c]) for c in left.colnames}
+        except Exception as e:
+            ok, obs = False, f"raised {type(e).__name__}: {e}"
+        run.check([ia, ib], ok, expected=f"first matches {m}", got=obs, clause="joins on two keys follow the relational definition")
